@@ -540,6 +540,7 @@ def run_path(prog, registry, contract, body_q, case_build, prefix, shared, modul
         raise Unsupported('non-deterministic case builder')
     spec = registry[contract.key]
     ipB.depth = 1      # the spec itself is never replaced
+    ipB.is_spec_run = True
     outB = execute(ipB, spec, argsB)
 
     res = PathResult()
@@ -574,8 +575,11 @@ def run_path(prog, registry, contract, body_q, case_build, prefix, shared, modul
             # postcondition / invariant taken from the property statement, evaluated on the contract's post-state
             for nm, cond in opts['post'](fB, argsB, outB.value):
                 cmp.goals.append(('post: ' + nm, cond))
+        inherited = [x for x in getattr(stB, 'inherited', []) if not isinstance(x, bool)]
         for nm, pc, c in stA.call_obligations + stB.call_obligations:
-            cmp.goals.append(('call-site ' + nm, mk_implies(mk_and(*pc) if pc else True, c)))
+            # checked from the facts, the path condition *at the call* and the preconditions the contract inherits from
+            # its own callees -- not from the final path condition (which already contains the assumed precondition)
+            cmp.goals.append(('call-site ' + nm, c, list(stA.facts) + [p for p in pc if not isinstance(p, bool)] + inherited))
     res.goals = cmp.goals
     # snapshot *after* the goals are built: evaluating elements at the generic indices instantiates further facts
     # (inverse axioms at that wavenumber, sqrt / exp facts of the terms that occur)
